@@ -5,8 +5,10 @@ from .sym import Contract
 CONTRACTS: list[Contract] = []
 
 
-def contract(qual, joined_locals=(), comps=None, match_params=None, defines=(), replay_hook=None, assumes=(), opaque_specs=(), **kw):
+def contract(qual, joined_locals=(), comps=None, match_params=None, defines=(), replay_hook=None, assumes=(), opaque_specs=(),
+             prefer_cvc5=False, **kw):
     c = Contract(qual, **kw)
+    c.prefer_cvc5 = prefer_cvc5      # string-list VCs that cvc5 decides in milliseconds and z3's sequence solver in a minute
     c.opaque_specs = tuple(opaque_specs)
     c.assumes = list(assumes)
     c.replay_hook = replay_hook
